@@ -183,3 +183,14 @@ def Local(idx):
     def m(e):
         return isinstance(e, tuple) and ((e[0] == "param" and e[2] == idx) or (e[0] == "phi" and e[1] == idx))
     return m
+
+
+def AnyLocal():
+    """any local variable (parameter or re-assigned local); use with equality checks to bind identity, never names"""
+    def m(e):
+        return isinstance(e, tuple) and e[0] in ("phi", "param")
+    return m
+
+
+def Same(ref):
+    return lambda e: e == ref
